@@ -45,11 +45,18 @@ void *Arena::alloc(size_t n, bool zero) {
 	if (!stack_at.empty() && stack_at.count(nallocs)) { fprintf(stderr, "== allocation #%llu (%zu bytes)%s\n", (unsigned long long)nallocs, n, fail_at.count(nallocs) ? " [made to fail]" : ""); __sanitizer_print_stack_trace(); }
 	if (fail_at.count(nallocs)) { if (g_hooks) g_hooks->on_alloc_fail(nallocs); errno = ENOMEM; return nullptr; }
 	size_t need = ((n + 15) & ~(size_t)15) + REDZONE;
-	if (n > cap || cur + REDZONE + need > cap) { exhausted = true; errno = ENOMEM; return nullptr; }
-	size_t off = cur + REDZONE;
-	cur = off + ((n + 15) & ~(size_t)15);
-	ArenaBlock b{off, n, true, nallocs};
-	blocks.push_back(b);
+	size_t off = 0; bool recycled = false;
+	if (reuse) {
+		auto fl = freelist.find((n + 15) & ~(size_t)15);
+		if (fl != freelist.end() && !fl->second.empty()) { int bi = fl->second.back(); fl->second.pop_back(); blocks[bi].live = true; blocks[bi].size = n; blocks[bi].seq = nallocs; off = blocks[bi].off; recycled = true; }
+	}
+	if (!recycled) {
+		if (n > cap || cur + REDZONE + need > cap) { exhausted = true; errno = ENOMEM; return nullptr; }
+		off = cur + REDZONE;
+		cur = off + ((n + 15) & ~(size_t)15);
+		ArenaBlock b{off, n, true, nallocs};
+		blocks.push_back(b);
+	}
 	live_bytes += n; live_blocks++; if (live_bytes > peak_live) peak_live = live_bytes;
 	unsigned char *p = base + off;
 	__asan_unpoison_memory_region(p, n);
@@ -77,6 +84,7 @@ void Arena::release(void *p) {
 	if (!blocks[i].live) { if (g_hooks) g_hooks->hygiene("double-free", "free() of an allocation that was already freed (alloc #" + std::to_string(blocks[i].seq) + ")"); return; }
 	blocks[i].live = false; live_bytes -= blocks[i].size; live_blocks--;
 	__asan_poison_memory_region(base + blocks[i].off, (blocks[i].size + 15) & ~(size_t)15);
+	if (reuse) freelist[(blocks[i].size + 15) & ~(size_t)15].push_back(i);
 }
 
 void *Arena::resize(void *p, size_t n) {
@@ -318,12 +326,17 @@ int sim_timerfd_create(int clockid, int flags) {
 }
 
 int sim_timerfd_settime(int fd, int flags, const struct itimerspec *nv, struct itimerspec *ov) {
-	SYSCALL("timerfd_settime"); (void)flags;
+	SYSCALL("timerfd_settime");
 	KFd *k = checked(fd, "timerfd_settime", M(FD_TIMER));
 	if (!k) return -1;
 	if (ov) memset(ov, 0, sizeof *ov);
 	if (nv->it_value.tv_nsec < 0 || nv->it_value.tv_nsec > 999999999L || nv->it_value.tv_sec < 0) { errno = EINVAL; return -1; }
 	uint64_t ns = (uint64_t)nv->it_value.tv_sec * 1000000000ULL + (uint64_t)nv->it_value.tv_nsec;
+	if ((flags & TFD_TIMER_ABSTIME) && ns != 0) {
+		// an absolute expiry time on the clock that sim_clock_gettime() shows: what counts is its distance from now (already past: expires at once)
+		uint64_t nowabs = world_vnow() + 1000ULL * 1000000000ULL;
+		ns = ns > nowabs ? ns - nowabs : 1;
+	}
 	g_hooks->on_timer_set(*k, ns);
 	return 0;
 }
